@@ -126,6 +126,46 @@ def run(ck, m):
     from props import C14
     C14.single_primary(ck, m, rule='C07.h')
     join_requests_reach_every_replica(ck, m)
+    election_locks_acyclic(ck, m)
+
+
+def election_locks_acyclic(ck, m):
+    """C07.l — see RULES"""
+    from nl import locks
+    from props import C10
+    P = m.prog
+    ck.rule('C07.l', 'every election terminates: no lock that the election takes (directly or in a callee: the pending-operation table it '
+                     'polls for acknowledgements, the cluster state it reads) lies on a cycle of the lock-order graph — the replication thread '
+                     'takes cluster state then pending table while it fans a message out; an election poll that takes them the other way round '
+                     'blocks both threads for good and the node stays in StartingUp (C10.c restricted to the election\'s locks)')
+    starters = [b for b in P.user_bodies() if b.kind == 'fn' and any(wire.first_word(f) == 'election' and 'candidate' in f.text()
+                                                                     for _, f in templates_in(m, b)) and b.locals[0] == '()']
+    if len(starters) != 1:
+        ck.undecided('C07.l', 'election', 'anchors', 'start_election: found %d' % len(starters))
+        return
+    L = locks.LockModel(P)
+    mine = {l for l, _mode in L.summaries().get(starters[0].id, ()) if not l.startswith(C10.SESSION_CONFINED) and not l.startswith('?')}
+    E = L.order_edges()
+    Gr = {}
+    for (x, y), w in E.items():
+        if x.startswith(C10.SESSION_CONFINED) or y.startswith(C10.SESSION_CONFINED) or x.startswith('?') or y.startswith('?'):
+            continue
+        Gr.setdefault(x, set()).add(y)
+        Gr.setdefault(y, set())
+    bad = []
+    for comp in C10.tarjan(Gr):
+        if len(comp) > 1 and set(comp) & mine:
+            comp = sorted(comp)
+            wit = ['%s->%s in %s [%s]' % (x, y, short(E[(x, y)][0]['body']), E[(x, y)][0]['acquired_at'])
+                   for x in comp for y in comp if x != y and (x, y) in E]
+            bad.append((comp, wit))
+            ck.ob('C07.l', 'election', 'cycle:' + '|'.join(comp), False,
+                  'the election takes %s, which lie on a lock-order cycle: %s' % (sorted(set(comp) & mine), '; '.join(wit[:6])),
+                  '%s:%s' % (starters[0].file, starters[0].line))
+    ck.ob('C07.l', 'election', 'locks-of-the-election-are-not-on-a-cycle', not bad,
+          'the election takes %d lock classes (%s); none of them is on a cycle of the lock-order graph' % (len(mine), sorted(mine)) if not bad else
+          '%d lock-order cycle(s) through locks of the election' % len(bad), '%s:%s' % (starters[0].file, starters[0].line))
+    ck.floor('C07.l', len(mine), 2, 'lock classes the election takes')
 
 
 def join_requests_reach_every_replica(ck, m):
